@@ -11,6 +11,7 @@ oracles (outcome class, span tiling, positions, reference segmenter, time).
 import itertools
 import os
 import re
+import signal
 import subprocess
 import sys
 import time
@@ -29,12 +30,12 @@ RULE = (
 )
 ASSUMPTIONS = [
     "the reference segmenter implements only the documented rules; anything else is DONT_CARE for rendering",
-    "time bound is measured (doubling ratio), not enumerated; thresholds are far from measured polynomial cases",
+    "time bound is measured in CPU seconds of a child process (doubling ratio, hard CPU limit), not enumerated; thresholds are far from measured polynomial cases",
     "CPython re, eval/exec and str are trusted",
 ]
 BOUNDS = {
     "quick": {"k_full": 3, "k_core": 4, "units": "<=2 all junctions, 3 with junctions {'',LF}", "rep_max": 256, "time_limit": 4},
-    "thorough": {"k_full": 4, "k_core": 5, "units": "<=3 all junctions, 4 with junctions {'',LF}", "rep_max": 8192, "time_limit": 20},
+    "thorough": {"k_full": 4, "k_core": 5, "units": "<=2 all junctions, 3 with junctions {'',LF,CRLF}, 4 without junctions", "rep_max": 4096, "time_limit": 20},
 }
 
 POOL_ASCII = ["a", "b", "z", "Q"]
@@ -464,7 +465,7 @@ def unit_docs(tier, seed):
     if tier == "quick":
         spec = [(1, full), (2, full), (3, two)]
     else:
-        spec = [(1, full), (2, full), (3, full), (4, two)]
+        spec = [(1, full), (2, full), (3, (0, 1, 2)), (4, (0,))]
     for n, js in spec:
         for combo in itertools.product(range(len(U)), repeat=n):
             for junc in itertools.product(js, repeat=n + 1):
@@ -585,7 +586,7 @@ def families(tier="quick"):
     ws = sorted(set(ws), key=lambda w: (len(w), w))
     for p in REP_PREFIX:
         for w in ws:
-            for s in (REP_SUFFIX if tier != "quick" else ["", ">"]):
+            for s in (["", ">", "\n"] if tier != "quick" else ["", ">"]):
                 yield (p, w, s)
 
 
@@ -597,14 +598,15 @@ from mako.lexer import Lexer
 from mako import exceptions
 fams = json.loads(sys.stdin.read())
 LIMIT = %(limit)d
-signal.signal(signal.SIGALRM, signal.SIG_DFL)   # a regex stuck in C cannot be interrupted from Python: die hard
+signal.signal(signal.SIGVTALRM, signal.SIG_DFL)   # a regex stuck in C cannot be interrupted from Python: die hard
+# the limit is CPU time of this process (ITIMER_VIRTUAL), so that machine load does not fake a blow-up
 for (p, w, s, sizes) in fams:
     res = []
     for n in sizes:
         text = p + w * n + s
         print("START " + json.dumps([p, w, s, n]), flush=True)
-        t0 = time.perf_counter()
-        signal.alarm(LIMIT)
+        t0 = time.process_time()
+        signal.setitimer(signal.ITIMER_VIRTUAL, LIMIT)
         try:
             Lexer(text).parse(); o = "ok"
         except (exceptions.SyntaxException, exceptions.CompileException):
@@ -613,8 +615,8 @@ for (p, w, s, sizes) in fams:
             o = "recursion"
         except BaseException as e:
             o = "other:" + type(e).__name__
-        signal.alarm(0)
-        dt = time.perf_counter() - t0
+        signal.setitimer(signal.ITIMER_VIRTUAL, 0)
+        dt = time.process_time() - t0
         res.append((n, o, round(dt, 4)))
         if dt > 2.5:
             break
@@ -647,7 +649,7 @@ def check_family_batch(fams, rep_max, st, limit=20):
                 _judge_family(p, w, s, res, st, limit)
         if ndone == len(remaining):
             break
-        if pr.returncode == -14 and last_start is not None:
+        if pr.returncode == -signal.SIGVTALRM and last_start is not None:
             p, w, s = remaining[ndone]
             assert [p, w, s] == last_start[:3], (remaining[ndone], last_start)
             _judge_family(p, w, s, [(last_start[3], "timeout", float(limit))], st, limit)
